@@ -6,6 +6,15 @@ impl Clone for SmolStr { #[verifier::external_body] fn clone(&self) -> (r: Self)
 #[verifier::external_body] pub struct EntityUID { _p: u8 }
 #[verifier::external_body] pub struct EntityType { _p: u8 }
 #[verifier::external_body] pub struct Name { _p: u8 }
+// `==` / `!=` on these opaque types: the derived (structural) PartialEq, i.e. spec equality (trusted, as for the vx_*_eq helpers)
+impl vstd::std_specs::cmp::PartialEqSpecImpl for EntityType { open spec fn obeys_eq_spec() -> bool { true } open spec fn eq_spec(&self, other: &Self) -> bool { *self == *other } }
+impl PartialEq for EntityType { #[verifier::external_body] fn eq(&self, other: &Self) -> (r: bool) { unimplemented!() } }
+impl vstd::std_specs::cmp::PartialEqSpecImpl for EntityUID { open spec fn obeys_eq_spec() -> bool { true } open spec fn eq_spec(&self, other: &Self) -> bool { *self == *other } }
+impl PartialEq for EntityUID { #[verifier::external_body] fn eq(&self, other: &Self) -> (r: bool) { unimplemented!() } }
+impl vstd::std_specs::cmp::PartialEqSpecImpl for SmolStr { open spec fn obeys_eq_spec() -> bool { true } open spec fn eq_spec(&self, other: &Self) -> bool { *self == *other } }
+impl PartialEq for SmolStr { #[verifier::external_body] fn eq(&self, other: &Self) -> (r: bool) { unimplemented!() } }
+impl vstd::std_specs::cmp::PartialEqSpecImpl for Name { open spec fn obeys_eq_spec() -> bool { true } open spec fn eq_spec(&self, other: &Self) -> bool { *self == *other } }
+impl PartialEq for Name { #[verifier::external_body] fn eq(&self, other: &Self) -> (r: bool) { unimplemented!() } }
 impl Clone for Name { #[verifier::external_body] fn clone(&self) -> (r: Self) ensures r == *self { unimplemented!() } }
 #[verifier::external_body] pub struct Extensions<'a> { _p: &'a u8 }
 #[verifier::external_body] pub struct RepresentableExtensionValue { _p: u8 }
